@@ -8,6 +8,7 @@ mod cmd_jax;
 mod cmd_lookup;
 mod cmd_record;
 mod cmd_compare;
+mod cmd_linkage;
 #[cfg(hpo_verif)]
 mod cmd_algo;
 mod enc;
@@ -35,6 +36,7 @@ fn main() {
         "replay-lookup" => cmd_lookup::run(&args),
         "record" => cmd_record::run(&args),
         "replay-compare" => cmd_compare::run(&args),
+        "replay-linkage" => cmd_linkage::run(&args),
         #[cfg(hpo_verif)]
         "record-algo" => cmd_algo::run(&args),
         "debug-mismatch" => cmd_binary::debug_mismatch(&args),
